@@ -1293,10 +1293,17 @@ class ManifestRecursiveLoader:
                             # into .aux_path
                             fe.path = os.path.relpath(fe.aux_path,
                                                       mdirpath)
-                            assert path_inside_dir(fe.path, 'files')
-                            # drop files/ prefix for the entry
-                            fe.aux_path = os.path.relpath(
-                                fe.path, 'files')
+                            if path_inside_dir(fe.path, 'files'):
+                                # drop files/ prefix for the entry
+                                fe.aux_path = os.path.relpath(
+                                    fe.path, 'files')
+                            else:
+                                # AUX can only express paths inside
+                                # files/ next to the Manifest; anything
+                                # else has to be a plain DATA entry
+                                fe = new_manifest_entry(
+                                    'DATA', fe.path, fe.size,
+                                    fe.checksums)
                         else:
                             fe.path = os.path.relpath(fe.path, mdirpath)
                         # do not add duplicate entry if the path is ignored
